@@ -49,7 +49,7 @@ func oracle(c *rig.StepCtx) (string, map[string]string) {
 	}
 	// every replica of the group on its own
 	for i, x := range c.X.Rep {
-		before, after := c.Before.ReplicaUp[i], c.After.ReplicaUp[i]
+		before, after := x.WasUp, c.After.ReplicaUp[i] // before = at the decision (after a fuse that landed inside the round)
 		if (after && !x.MayUp) || (!after && !x.MayDown) {
 			probe, gate := "n/a", "n/a"
 			if c.X.Round == "R" {
